@@ -109,6 +109,8 @@ let all_strings k suffix (f : n list -> unit) =
     f (List.init k (fun j -> n_of_int ((i lsr (8 * (k - 1 - j))) land 255)) @ suffix)
   done
 
+let rec nat_of_int k = if k <= 0 then O else S (nat_of_int (k - 1))
+
 let coq_string (s : string) : Model.string =
   let n = String.length s in
   let rec go i =
@@ -136,6 +138,54 @@ let enum_s name bs =
   match run_enum (coq_string name) bs with
   | None -> "NoSuchType"
   | Some r -> res_s (fun (i, v) -> string_of_n i ^ " " ^ show_value v) r
+
+(* runtime layouts (C12: randomly generated structs): tokens
+     fields := "[" field* "]" ;  field := "F" TAG LS ENC ty ;  ty := "P" prim | "O" ty | "V" ty | "S" fields *)
+let parse_layout (s : string) : field list =
+  let toks = ref (List.filter (fun t -> t <> "") (String.split_on_char ' ' s)) in
+  let next () = match !toks with t :: r -> toks := r; t | [] -> failwith "layout: eof" in
+  let peek () = match !toks with t :: _ -> t | [] -> "" in
+  let rec fields () =
+    if next () <> "[" then failwith "layout: [";
+    let acc = ref [] in
+    while peek () <> "]" do acc := field () :: !acc done;
+    ignore (next ());
+    List.rev !acc
+  and field () =
+    if next () <> "F" then failwith "layout: F";
+    let tag = next () in
+    let ls = style_of_string (next ()) in
+    let e = enc_of_string (next ()) in
+    let t = ty () in
+    Fld (coq_string "f", (if tag = "-" then None else Some (n_of_string tag)), ls, e, t)
+  and ty () =
+    match next () with
+    | "P" -> TPrim (prim_of_string (next ()))
+    | "O" -> TOpt (ty ())
+    | "V" -> TVec (ty ())
+    | "S" -> TStruct (fields ())
+    | t -> failwith ("layout: ty " ^ t) in
+  fields ()
+
+let ldec_s cf layout bs =
+  let fs = parse_layout layout in
+  let fuel = nat_of_int 64 in
+  let r, re =
+    if cf = "-" then
+      (let r = dec_plain fuel fs bs in (r, match r with Ok (v, _) -> enc_struct fs v | _ -> Err NonImplemented))
+    else
+      (match String.split_on_char ',' cf with
+       | [c; i] ->
+           let cm = { c_class = n_of_string c; c_instr = n_of_string i; c_fields = fs } in
+           let r = dec_cmd fuel cm bs in (r, match r with Ok (v, _) -> enc_cmd cm v | _ -> Err NonImplemented)
+       | _ -> failwith "cf") in
+  match r with
+  | Ok (v, rem) ->
+      "Ok " ^ show_value v ^ " rem=" ^ hex rem ^ " re=" ^
+      (match re with Ok b -> hex b | Panic -> "Panic" | OutOfFuel -> "Hang" | Err e -> "Model" ^ err_s e)
+  | Err e -> err_s e
+  | Panic -> "Panic"
+  | OutOfFuel -> "Hang"
 
 let read_s chunks eof k =
   let cs = if chunks = "-" then [] else
@@ -216,6 +266,7 @@ let () =
               let bs = List.init k (fun j -> n_of_int ((i lsr (8 * (k - 1 - j))) land 255)) in
               emit (len_de_s f.(1) (bs @ suffix))
             done
+        | "ldec" -> emit (ldec_s f.(1) f.(2) (unhex f.(3)))
         | "seq" -> emit (seq_s f.(1) (unhex f.(2)) (unhex f.(3)))
         | "uploadm" -> emit (upload_s f.(1) f.(2) f.(3) (unhex f.(4)))
         | "wr_range" -> for k = int_of_string f.(1) to int_of_string f.(2) do emit (wr_s k) done
